@@ -9,3 +9,5 @@ import ZbossModel.Props.C13
 #print axioms Zboss.Host.C13_late_response_no_effect
 #print axioms Zboss.Host.C13_late_response_no_effect_reachable
 #print axioms Zboss.Host.C13_next_request_gets_its_response
+#print axioms Zboss.Host.C13_routing_is_listener_table
+#print axioms Zboss.Host.C13_one_waiter_per_request
